@@ -401,8 +401,8 @@ def U1 : Hash := List.replicate 20 1
 def U2 : Hash := List.replicate 20 2
 def com : Name := [99, 111, 109]
 def aCom : Name := [97, 46, 99, 111, 109]
-def envC (now : Int) : Env := ⟨[], [], true, now, fun _ => true, true, 0⟩
-def envU (u : Hash) (now : Int) : Env := ⟨[u], [], false, now, fun _ => true, true, 0⟩
+def envC (now : Int) : Env := ⟨[], [], 1, 1, now, fun _ => true, true, 0⟩
+def envU (u : Hash) (now : Int) : Env := ⟨[u], [], 0, 1, now, fun _ => true, true, 0⟩
 def mail : Bytes := [101, 64, 120]
 
 /-- `com` by the committee at 1000; `a.com` for U1 at 2000 with 100 s (expires at 102000) -/
